@@ -1595,7 +1595,7 @@ func (b *bsiGroup) rangeAll(op pql.Token, value int64) bool {
 
 func (b *bsiGroup) baseValueBetween(lo, hi int64) (baseValueLo, baseValueHi int64, outOfRange bool) {
 	min, max := b.bitDepthMin(), b.bitDepthMax()
-	if hi < min || lo > max {
+	if hi < min || lo > max || lo > hi {
 		return 0, 0, true
 	}
 
